@@ -149,6 +149,7 @@ def run(ctx) -> None:
     self_pattern_rule(ctx, "R2")
     from checks.c03 import section_scan_rule
     section_scan_rule(ctx, "R3")
+    toml_section_eval(ctx, "R3")
     # ... and the set of (file, pattern) pairs: every file a configured glob finds is a configured file, whatever its name
     from checks.c03 import canonical_keys_rule
     canonical_keys_rule(ctx, "R2")
@@ -262,3 +263,46 @@ def _toml_doc_vars(fn) -> T.Set[str]:
     """Locals bound to the parsed TOML document (`x = toml.load(...)`); `raw_full_cfg` on the pinned tree."""
     out = {unparse(tg) for _st, tg, v in shapes.iter_assigns(fn.node) if isinstance(v, ast.Call) and unparse(v.func) in ("toml.load", "toml.loads", "tomllib.load", "tomllib.loads")}
     return out or {"raw_full_cfg"}
+
+
+def toml_section_eval(ctx, rule: str) -> None:
+    """_parse_toml evaluated on six parsed documents: the section table is [tool.bumpver], else [bumpver], else [pycalver],
+    else empty - and a document with other [tool.*] tables (pyproject.toml of any project) is read without a KeyError."""
+    from sa.model import CannotFold, EvalError
+    prog = ctx.prog
+    fn = prog.function("config._parse_toml")
+    ctx.visit(fn.fq)
+    sec = {"current_version": "1.2.3", "version_pattern": "MAJOR.MINOR.PATCH"}
+    docs = [
+        ("empty document", {}, {}),
+        ("[tool.black] only", {"tool": {"black": {"line-length": 100}}}, {}),
+        ("[tool.bumpver]", {"tool": {"black": {}, "bumpver": dict(sec)}}, sec),
+        ("[bumpver]", {"bumpver": dict(sec)}, sec),
+        ("[pycalver]", {"pycalver": dict(sec)}, sec),
+        ("[tool.bumpver] and [bumpver]", {"tool": {"bumpver": dict(sec, current_version="2.0.0")}, "bumpver": dict(sec)}, dict(sec, current_version="2.0.0")),
+    ]
+    bools = prog.const("config", "BOOL_OPTIONS")
+    wrong: T.List[str] = []
+    n = 0
+    try:
+        for name, doc, want in docs:
+            import copy
+            env = {fn.params[0]: "BUFFER", "__strict__": True,
+                   "__stubs__": {"toml.load": lambda f, node, doc=doc: copy.deepcopy(doc), "_set_raw_config_defaults": lambda f, node: None, "_check_and_default_raw_cfg": lambda f, node: None}}
+            try:
+                got, _ys = prog.run_body(fn, env)
+            except EvalError as ex:
+                got = f"raises: {ex}"
+            n += 1
+            if isinstance(got, dict):
+                core = {k: v for k, v in got.items() if k not in bools}
+                if core != want:
+                    wrong.append(f"{name}: section {core}, expected {want}")
+            else:
+                wrong.append(f"{name}: {got}")
+    except (CannotFold, TypeError, AttributeError, KeyError, ValueError, IndexError) as ex:
+        ctx.observe(f"_parse_toml not evaluated ({type(ex).__name__}: {str(ex)[:80]})")
+        return
+    ctx.check(rule, not wrong, f"_parse_toml: [tool.bumpver] > [bumpver] > [pycalver] > nothing, no lookup without a membership test ({n} documents evaluated)",
+              "config._parse_toml: the bumpver section of a TOML document is not found / a document without one raises", "; ".join(wrong[:2]), loc=fn.loc(),
+              witness={"pyproject.toml": "[tool.black]\nline-length = 100\n"})
